@@ -291,8 +291,24 @@ class DefaultRealizationFilter(RealizationFilter):
         failed_realizations = np.isnan(constraints[..., 0])
         constraints = np.nan_to_num(constraints[..., self._filter_options.sort])
         assert self._enopt_config.nonlinear_constraints is not None
+        # The worst realizations are sorted first, which depends on the bounds:
+        lower_bound = self._enopt_config.nonlinear_constraints.lower_bounds[
+            self._filter_options.sort
+        ]
+        upper_bound = self._enopt_config.nonlinear_constraints.upper_bounds[
+            self._filter_options.sort
+        ]
+        if lower_bound == upper_bound:
+            # Equality: the values farthest from the target are the worst.
+            values = -np.abs(constraints - lower_bound)
+        elif np.isfinite(lower_bound) and not np.isfinite(upper_bound):
+            # Lower bound only: the smallest values are the worst.
+            values = constraints
+        else:
+            # Upper bound: the largest values are the worst.
+            values = -constraints
         return _get_cvar_weights_from_percentile(
-            -constraints, failed_realizations, self._filter_options.percentile
+            values, failed_realizations, self._filter_options.percentile
         )
 
 
